@@ -47,6 +47,9 @@ def run(tier, replay=None):
     layouts, _ = export()
     src = common.harness_traces("c06src", tier, shards=1, extra_args=["-x", "layouts=%s;port=%d" % (layouts, 28700)], timeout=600)
     common.validate(v, "Trace_Api", "Trace_Api.cfg", src, lambda conj, rec: "%s:%s:bind=%s" % (conj, rec["path"], rec["bind"]))
+    # "exactly one request leaves per call" whatever the controller answers: the real-driver pass (a fatal datagram answering the
+    # first request of every reply-bearing operation x path, a well-formed reply ready for any repeated one: NoSecondRequest)
+    common.kept_pass(v, tier)
     groups = ["G_mixed_fixed", "G_mixed_eph", "G_udp_fixed"]
     n = 30 if tier == "quick" else 300
     transport.run_groups(v, groups, n)
